@@ -21,7 +21,7 @@ claims={
  "C05":("SignPKCS7 output equals, byte for byte, a reference RFC 2315/X.690 encoding written in the harness, for every content length in the bound, three content types, symbolic content/certificate/issuer/serial bytes and a symbolic clock (signature and hash as uninterpreted functions).","2 C05"),
  "C06":("SignEFIVariable output equals the specified AUTHENTICATION_2 layout byte for byte (UTC timestamp for every process time zone, header fields, bare detached SignedData over the specified buffer, payload) for symbolic names, GUIDs, attribute masks and payloads.","2 C06"),
  "C02":("On the signed fixture image under the signature/hash model: verification succeeds for the signer and fails for another key (same issuer and serial) and for every single-byte change of section data (symbolic position), of the embedded digest, of the signer identity, signed attributes and signature.","2 C02"),
- "C04":("Unit-level soundness of PKCS#7 verification over an arbitrary parsed state with up to two signer entries and a reusable honest signature: success implies matching identity, valid signature over the attribute SET and messageDigest = SHA-256(content).","2 C04"),
+ "C04":("Unit-level soundness of PKCS#7 verification over an arbitrary parsed state with up to two signer entries and a reusable honest signature: success implies matching identity, valid signature over the attribute SET and messageDigest = SHA-256(content); and blobs whose attribute order differs from the signed order are rejected (verification over the bytes as they appear).","2 C04"),
  "C13":("Crash/exit/allocation/termination obligations decided on every path for: the test image with each offset-steering header field symbolic (Parse, Hash, Bytes, Signatures), a fully symbolic certificate table, fully symbolic small DER through ParsePKCS7/Verify, a real blob with one symbolic byte, and a signer entry without attributes.","2 C13"),
  "C16":("Third-party style SignedData built by an independent reference encoder in all 32 producer configurations parses, verifies against the signer and not against another certificate, and the signed-attribute bytes reconstructed from the parsed values equal the signed bytes; the shipped sbsign/sbvarsign artefacts parse.","2 C16"),
 }
@@ -29,7 +29,6 @@ partial={
  "C16":" The producer language is an assumption about OpenSSL/sbsign, stated in the evidence.",
  "C13":" Fully symbolic images are outside; one header field varies at a time.",
  "C02":" Header-byte coverage rests on C01 (digest = specification stream) plus the digest comparison shown here; cross-image transplant is the section-byte case seen from the other image.",
- "C04":" DER-level attribute permutation/duplication is addressed by the fix to verify over original bytes but not separately decided.",
  "C05":" The library's own parse/verify of the result is covered by C04's harnesses only in unit form; third-party verifiers are outside.",
  "C15":" Reader failures after parsing (Hash/Verify) cannot occur: the parsed object reads from memory.",
  "C19":" Real goroutine schedules are not explored; Verify is not included.",
